@@ -6,6 +6,7 @@
     witness against the estimator as found. *)
 From VLS Require Import Base.U64 Model.CommitmentPolicy Proofs.CommitmentPolicyProofs.
 From VLS Require Gen.TxUtilGen Proofs.TxUtilGenProofs.
+From VLS Require Gen.CommitmentPolicyGen Proofs.CommitmentPolicyGenProofs.
 
 (** Under a non-permissive filter, whichever entry point accepts a commitment (simple or
     on-chain validator, counterparty or holder side), for every policy, setup, chain state,
@@ -368,3 +369,85 @@ Theorem C05_commitment_weight_is_source :
     TxUtilGen.gen_expected_commitment_tx_weight prof anchors n = Val (expected_weight anchors n).
 Proof. exact TxUtilGenProofs.gen_weight_is_model. Qed.
 Print Assumptions C05_commitment_weight_is_source.
+
+(** The commitment rules themselves are the ones in the source.  Gen/CommitmentPolicyGen.v is the
+    statement-by-statement translation (tools/gen_rustfn.py, regenerated on every run) of
+      SimpleValidator::validate_expiry, ::validate_fee and ::validate_commitment_tx - the whole body:
+        both main-output dust checks, the HTLC count, the two trim limits, both HTLC loops (expiry
+        window, checked accumulation, trim limit - in this order, the first error leaves the
+        function), the in-flight limit, the expected weight, the checked sum of the outputs, the
+        validate_fee call (with its map_err, which keeps the tag), value_to_parties and the rules
+        for the initial commitment, up to the final Ok(()) -
+      with ChannelSetup::is_anchors, ::is_zero_fee_htlc and CommitmentInfo2::value_to_parties,
+    over records generated from the declarations of HTLCInfo2, CommitmentInfo2, ChannelSetup,
+    ChainState, SimplePolicy and the enum CommitmentType, with the constants MAX_CLTV_EXPIRY,
+    MIN_CHAN_DUST_LIMIT_SATOSHIS, MIN_DUST_LIMIT_SATOSHIS read from their files; the feerate
+    estimate and the expected weight are the translations of Gen/TxUtilGen.v.  Dropped by the
+    translation: the scoped_debug_return! guard and the debug! line (logging).  Parameters of the
+    translation: the policy filter (a function of the tag string) and LDK's answers
+    htlc_timeout_tx_weight / htlc_success_tx_weight for the channel type.
+
+    For every value of the source's structs, every filter and both build profiles the generated
+    function answers exactly what the model answers on the abstraction of that value
+    ([abs_*] of Proofs/CommitmentPolicyGenProofs.v forget payment hashes, keys and scripts;
+    [tag_filter] reads the filter on the names of the model's tags; [of_res] keeps the tag of a
+    refusal and maps a panic to a panic). *)
+Theorem C05_expiry_rule_is_source :
+  forall (prof : profile) (swarn : string -> bool) (gp : CommitmentPolicyGen.SimplePolicy)
+         (name : string) (expiry current_height : N),
+    CommitmentPolicyGen.gen_validate_expiry prof swarn gp name expiry current_height =
+    CommitmentPolicyGenProofs.of_res
+      (validate_expiry prof (CommitmentPolicyGenProofs.tag_filter swarn)
+                       (CommitmentPolicyGenProofs.abs_policy gp) expiry current_height).
+Proof. exact CommitmentPolicyGenProofs.gen_expiry_is_model. Qed.
+Print Assumptions C05_expiry_rule_is_source.
+
+(** side condition: the input sum is a u64 (it is: [setup.channel_value_sat]) *)
+Theorem C05_fee_rule_is_source :
+  forall (prof : profile) (swarn : string -> bool) (gp : CommitmentPolicyGen.SimplePolicy)
+         (sum_inputs sum_outputs weight : N),
+    (sum_inputs <=? U64MAX) = true ->
+    CommitmentPolicyGen.gen_validate_fee prof swarn gp (tag_name T_fee_range) sum_inputs sum_outputs weight =
+    CommitmentPolicyGenProofs.of_res
+      (validate_fee est_new (CommitmentPolicyGenProofs.tag_filter swarn)
+                    (CommitmentPolicyGenProofs.abs_policy gp) sum_inputs sum_outputs weight).
+Proof. exact CommitmentPolicyGenProofs.gen_fee_is_model. Qed.
+Print Assumptions C05_fee_rule_is_source.
+
+(** side conditions ([commit_fits], a boolean that holds for every value of the Rust types):
+    channel_value_sat <= u64::MAX, feerate_per_kw <= u32::MAX, and
+    (offered + received HTLCs) * 172 + 1124 <= usize::MAX.  The LDK weights are the model's
+    663 / 703 (read only for channel types without zero-fee HTLC transactions).  [estate] and
+    [point] stand for the two arguments the function only logs. *)
+Theorem C05_commitment_rules_are_source :
+  forall (prof : profile) (swarn : string -> bool) (gp : CommitmentPolicyGen.SimplePolicy)
+         (estate commit_num point : N) (gs : CommitmentPolicyGen.ChannelSetup)
+         (gcs : CommitmentPolicyGen.ChainState) (gi : CommitmentPolicyGen.CommitmentInfo2),
+    CommitmentPolicyGenProofs.commit_fits gs gi = true ->
+    CommitmentPolicyGen.gen_validate_commitment_tx prof swarn gp HTLC_TIMEOUT_WEIGHT HTLC_SUCCESS_WEIGHT
+      estate commit_num point gs gcs gi =
+    CommitmentPolicyGenProofs.of_res
+      (validate_commitment est_new prof (CommitmentPolicyGenProofs.tag_filter swarn)
+         (CommitmentPolicyGenProofs.abs_policy gp) (CommitmentPolicyGenProofs.abs_setup gs)
+         (CommitmentPolicyGenProofs.abs_chain gcs) commit_num (CommitmentPolicyGenProofs.abs_info gi)).
+Proof. exact CommitmentPolicyGenProofs.gen_commitment_is_model. Qed.
+Print Assumptions C05_commitment_rules_are_source.
+
+(** Hence the bounds hold for what the *source's* function accepts: under a filter that
+    downgrades nothing, [Ok(())] of the translated validate_commitment_tx implies the whole
+    conjunction on the abstraction of its arguments (same premises as
+    [C05_accept_implies_bounds]). *)
+Theorem C05_source_accept_implies_bounds :
+  forall (prof : profile) (swarn : string -> bool) (gp : CommitmentPolicyGen.SimplePolicy)
+         (estate commit_num point : N) (gs : CommitmentPolicyGen.ChannelSetup)
+         (gcs : CommitmentPolicyGen.ChainState) (gi : CommitmentPolicyGen.CommitmentInfo2),
+    (forall t, swarn t = false) ->
+    CommitmentPolicyGenProofs.commit_fits gs gi = true ->
+    max_feerate (CommitmentPolicyGenProofs.abs_policy gp) < U32MAX ->
+    heights_fit prof (CommitmentPolicyGenProofs.abs_policy gp) (CommitmentPolicyGenProofs.abs_chain gcs) ->
+    CommitmentPolicyGen.gen_validate_commitment_tx prof swarn gp HTLC_TIMEOUT_WEIGHT HTLC_SUCCESS_WEIGHT
+      estate commit_num point gs gcs gi = Val (Rust.OkR tt) ->
+    Bounds (CommitmentPolicyGenProofs.abs_policy gp) (CommitmentPolicyGenProofs.abs_setup gs)
+           (CommitmentPolicyGenProofs.abs_chain gcs) commit_num (CommitmentPolicyGenProofs.abs_info gi).
+Proof. exact CommitmentPolicyGenProofs.source_accept_implies_bounds. Qed.
+Print Assumptions C05_source_accept_implies_bounds.
